@@ -1,10 +1,140 @@
 import Driver.Common
-/-! C12 driver (stub: answers bad-op until the property's model is wired in). -/
-open Driver
+import Sourmash.Model.Select
+import Sourmash.Model.Csv
+import Sourmash.Model.Manifest
+/-! C12 driver: records from signatures, manifests through CSV text, record look-up.
+Model column = `Model/Csv.lean`, `Model/Manifest.lean`, `Model/Select.lean`;
+spec column = what the property demands (records read back = records written; each record field =
+the sketch's observable; a look-up returns the one sketch the record was built from). -/
+open Driver Select Scaled
 
-def stepC12 (s : Unit) (ws : List String) : Unit × Resp :=
+structure St where
+  recs : List Record := []
+  sigs : List Sig := []
+  md5s : List (Sketch × Select.Bytes) := []
+
+def seed0 : Nat := 1000
+
+def molOfString (s : String) : Mol :=
+  if s == "protein" then .protein else if s == "dayhoff" then .dayhoff else if s == "hp" then .hp else .dna
+def molString : Mol → String
+  | .dna => "dna" | .protein => "protein" | .dayhoff => "dayhoff" | .hp => "hp"
+
+def optBytes (s : String) : Option Select.Bytes := if s == "~" then none else some (unhex s)
+
+def showRecord (r : Record) : String :=
+  ":".intercalate [hex r.internalLocation, hex r.md5, hex r.md5short, toString r.ksize, hex r.moltype,
+    toString r.num, toString r.scaled, toString r.nHashes, (if r.withAbundance then "1" else "0"),
+    hex r.name, hex r.filename]
+
+def showRecords (l : List Record) : String :=
+  if l.isEmpty then "-" else "|".intercalate (l.map showRecord)
+
+def md5Lookup (t : List (Sketch × Select.Bytes)) (s : Sketch) : Select.Bytes :=
+  match t.find? (fun p => p.1 == s) with
+  | some p => p.2
+  | none => []
+
+def descr (md5 : Select.Bytes) (s : Sketch) : String :=
+  "/".intercalate [toString (s.seed - seed0), toString s.ksize, molString s.mol, toString s.num,
+    toString s.scaled, (if s.tracked then "1" else "0"), (match s.container with | .vec => "v" | .tree => "t"),
+    toString s.mins.length, showNats s.mins, showNats s.abunds,
+    String.fromUTF8! (ByteArray.mk md5.toArray)]
+
+def pickIdx (st : St) (s : String) : List Record := (natList s).map (fun i => st.recs[i]!)
+
+/-- spec of `from_sig`, field by field from the sketch's observables -/
+def fromSigSpec (md5of : Sketch → Select.Bytes) (sg : Sig) (loc : Select.Bytes) : Option (List Record) :=
+  let name? : Option Select.Bytes :=
+    match sg.name, sg.filename with
+    | some n, _ => some n
+    | none, some f => some f
+    | none, none => match sg.sketches with | [s] => some (md5of s) | _ => none
+  match sg.sketches, name? with
+  | [], _ => some []
+  | _, none => none      -- the property says nothing: the code panics (name of a nameless multi-sketch signature)
+  | sks, some nm => some (sks.map (fun s =>
+      { internalLocation := loc, md5 := md5of s, md5short := (md5of s).take 8,
+        ksize := if s.mol == .dna then s.ksize else s.ksize / 3,
+        moltype := (match s.mol with | .dna => "DNA" | .protein => "protein" | .dayhoff => "dayhoff" | .hp => "hp").toUTF8.toList,
+        num := s.num, scaled := s.scaled, nHashes := s.mins.length, withAbundance := s.tracked,
+        name := nm, filename := sg.filename.getD [] }))
+
+def stepC12 (st : St) (ws : List String) : St × Resp :=
   match ws with
-  | "case" :: _ => (s, { model := "ok" })
-  | _ => (s, { model := "bad-op" })
+  | "case" :: _ => ({}, { model := "ok" })
+  | ["rec", loc, m5, m5s, k, mt, n, sc, nh, ab, nm, fnm] =>
+    let r : Record :=
+      { internalLocation := unhex loc
+        md5 := unhex m5
+        md5short := unhex m5s
+        ksize := k.toNat!
+        moltype := unhex mt
+        num := n.toNat!
+        scaled := sc.toNat!
+        nHashes := nh.toNat!
+        withAbundance := (ab == "1")
+        name := unhex nm
+        filename := unhex fnm }
+    ({ st with recs := st.recs ++ [r] }, { model := "ok" })
+  | ["write"] => (st, { model := hex (Manifest.toWriter st.recs) })
+  | ["rt"] =>
+    (st, { model := match Manifest.fromReader (Manifest.toWriter st.recs) with
+                    | some l => showRecords l
+                    | none => "err CsvError",
+           spec := showRecords st.recs })
+  | ["read", bs] =>
+    (st, { model := match Manifest.fromReader (unhex bs) with
+                    | some l => showRecords l
+                    | none => "err CsvError" })
+  | ["isect", a, b] =>
+    let ra := pickIdx st a
+    let rb := pickIdx st b
+    -- spec: rows of `a` that agree with some row of `b` on every field but location/md5short, in order
+    let same (x y : Record) : Bool :=
+      decide ({ x with internalLocation := [], md5short := [] } = { y with internalLocation := [], md5short := [] })
+    (st, { model := showRecords (Manifest.intersect ra rb),
+           spec := showRecords (ra.filter (fun x => rb.any (same x))) })
+  | ["sig", n, f] =>
+    ({ st with sigs := st.sigs ++ [{ name := optBytes n, filename := optBytes f, sketches := [] }] }, { model := "ok" })
+  | ["sk", k, m, n, sc, tr, c, mins, abunds, md5] =>
+    match st.sigs.reverse with
+    | [] => (st, { model := "bad-op" })
+    | sg :: before =>
+      let sk : Sketch :=
+        { ksize := k.toNat!, mol := molOfString m, num := n.toNat!, maxHash := maxHashForScaled sc.toNat!,
+          tracked := tr == "1", container := if c == "v" then .vec else .tree,
+          seed := seed0 + sg.sketches.length, mins := natList mins, abunds := natList abunds }
+      let sg' := { sg with sketches := sg.sketches ++ [sk] }
+      let md5b := md5.toUTF8.toList
+      ({ st with sigs := (sg' :: before).reverse, md5s := st.md5s ++ [(sk, md5b)] }, { model := descr md5b sk })
+  | ["fromsig", i, loc] =>
+    let sg := st.sigs[i.toNat!]!
+    let md5of := md5Lookup st.md5s
+    (st, { model := match fromSig md5of sg (unhex loc) with
+                    | some l => showRecords l
+                    | none => "PANIC",
+           spec := match fromSigSpec md5of sg (unhex loc) with
+                   | some l => showRecords l
+                   | none => "-" })
+  | ["lookup", i] =>
+    let i := i.toNat!
+    let md5of := md5Lookup st.md5s
+    let flat := (st.sigs.zipIdx.map (fun (sg, si) => sg.sketches.map (fun s => (si, s)))).flatten
+    let spec := match flat[i]? with
+      | some (si, s) => toString si ++ "=" ++ descr (md5of s) s
+      | none => "-"
+    match Collection.fromSigs md5of st.sigs with
+    | none => (st, { model := "PANIC" })
+    | some c =>
+      let model := match c.sigForDataset i with
+        | none => "PANIC"
+        | some (.error _) => "err"
+        | some (.ok sg) =>
+          String.fromUTF8! (ByteArray.mk ((c.manifest[i]!).internalLocation.toArray)) ++ "=" ++
+            (if sg.sketches.isEmpty then "-" else ";".intercalate (sg.sketches.map (fun s => descr (md5of s) s)))
+      (st, { model := model, spec := spec })
+  | ["zipcheck", _] => (st, { model := "-", spec := "faithful" })
+  | _ => (st, { model := "bad-op" })
 
-def main : IO Unit := Driver.run () stepC12
+def main : IO Unit := Driver.run ({} : St) stepC12
